@@ -114,6 +114,31 @@ func (r *c01Route) msg(from *vwPeer) *bgp.BGPMessage {
 	return bgp.NewBGPUpdateMessage(nil, attrs, []bgp.PathNLRI{{NLRI: c01Nlri(r.pfx), ID: uint32(r.pathID)}})
 }
 
+// c01LocalPath builds the table.Path a locally injected route becomes after API conversion
+// (source nil = table.localSource).
+func c01LocalPath(rt *c01Route, withdraw bool, ts time.Time) *table.Path {
+	nlri := bgp.PathNLRI{NLRI: c01Nlri(rt.pfx)}
+	if withdraw {
+		return table.NewPath(bgp.RF_IPv4_UC, nil, nlri, true, nil, ts, false)
+	}
+	attrs := []bgp.PathAttributeInterface{bgp.NewPathAttributeOrigin(rt.origin)}
+	params := make([]bgp.AsPathParamInterface, 0, len(rt.segs))
+	for _, s := range rt.segs {
+		params = append(params, bgp.NewAs4PathParam(uint8(s[0]), append([]uint32{}, s[1:]...)))
+	}
+	attrs = append(attrs, bgp.NewPathAttributeAsPath(params))
+	nh, _ := bgp.NewPathAttributeNextHop(netip.MustParseAddr("10.255.0.1"))
+	attrs = append(attrs, nh)
+	if rt.med != nil {
+		attrs = append(attrs, bgp.NewPathAttributeMultiExitDisc(*rt.med))
+	}
+	if rt.lp != nil {
+		attrs = append(attrs, bgp.NewPathAttributeLocalPref(*rt.lp))
+	}
+	attrs = append(attrs, bgp.NewPathAttributeCommunities([]uint32{0xfffe0000 | uint32(rt.marker)}))
+	return table.NewPath(bgp.RF_IPv4_UC, nil, nlri, false, attrs, ts, false)
+}
+
 func c01Kind(k string) int {
 	switch k {
 	case "ebgp":
@@ -133,6 +158,7 @@ type c01Scenario struct {
 	marker int
 	// oracle bookkeeping (C02): per peer, latest un-withdrawn announcement per key
 	latest []map[string]*c01Route
+	local  map[string]*c01Route // locally injected routes, by "pfx#pathid"
 	// best-path watcher (C02): events are read straight from the watcher's queue
 	bw       *watcher
 	bestSeen map[string]uint32 // prefix -> marker, rebuilt by replaying the notification stream
@@ -403,7 +429,13 @@ func (sc *c01Scenario) oracleAddPath(vp *vwPeer, history []string) {
 func (sc *c01Scenario) oracleC02(history []string) {
 	w := sc.w
 	wantRib := map[string][]int{}
+	for _, rt := range sc.local {
+		wantRib[c01Prefixes[rt.pfx]] = append(wantRib[c01Prefixes[rt.pfx]], rt.marker)
+	}
 	for i, vp := range w.peers {
+		if vp.deleted {
+			continue
+		}
 		wantAdj := []string{}
 		accepted := 0
 		for _, rt := range sc.latest[i] {
@@ -468,7 +500,7 @@ func (sc *c01Scenario) oracleC02(history []string) {
 func c01Run(t *testing.T, o *vOut, r *vRand, nOps int, idx int, addPathMode bool) {
 	w := newVWorld(t, 65000, "10.255.0.1")
 	defer w.stop()
-	sc := &c01Scenario{w: w, o: o, r: r}
+	sc := &c01Scenario{w: w, o: o, r: r, local: map[string]*c01Route{}}
 	sc.watchBest()
 	defer sc.unwatchBest()
 	o.op("world %d %d", w.as, c01U32(w.rid))
@@ -476,7 +508,7 @@ func c01Run(t *testing.T, o *vOut, r *vRand, nOps int, idx int, addPathMode bool
 	peerLines := []string{}
 	kinds := []string{"ebgp", "ebgp", "ibgp", "ibgp", "rrc", "rrc"}
 	ridPool := r.perm(8)
-	for i := 0; i < nPeers; i++ {
+	mkPeer := func(i int) string {
 		k := kinds[r.intn(len(kinds))]
 		sp := vwPeerSpec{kind: k, as: 65000, rid: netip.AddrFrom4([4]byte{10, 0, 0, byte(1 + ridPool[i])}),
 			addr: netip.AddrFrom4([4]byte{192, 168, 0, byte(1 + i)})}
@@ -505,9 +537,12 @@ func c01Run(t *testing.T, o *vOut, r *vRand, nOps int, idx int, addPathMode bool
 		if sp.addPathRx {
 			rx = 1
 		}
-		peerLines = append(peerLines, fmt.Sprintf("peer %d %d %d %d %d %d %d %d", i, c01Kind(k), sp.as, c01U32(sp.rid), c01U32(sp.addr), sp.sendMax, rx, sp.allowOwnAs))
-		o.op("%s", peerLines[len(peerLines)-1])
 		o.stat("peer_kind_"+k, 1)
+		return fmt.Sprintf("peer %d %d %d %d %d %d %d %d", i, c01Kind(k), sp.as, c01U32(sp.rid), c01U32(sp.addr), sp.sendMax, rx, sp.allowOwnAs)
+	}
+	for i := 0; i < nPeers; i++ {
+		peerLines = append(peerLines, mkPeer(i))
+		o.op("%s", peerLines[len(peerLines)-1])
 	}
 	history := append([]string{}, peerLines...)
 	note := func(f string, a ...any) {
@@ -527,6 +562,9 @@ func c01Run(t *testing.T, o *vOut, r *vRand, nOps int, idx int, addPathMode bool
 			w.flush(vp)
 		}
 		for i, vp := range w.peers {
+			if vp.deleted {
+				continue
+			}
 			if vp.up && vp.spec.sendMax == 0 {
 				o.ask("view"+vp.viewString2(), "view %d", i)
 			}
@@ -568,7 +606,11 @@ func c01Run(t *testing.T, o *vOut, r *vRand, nOps int, idx int, addPathMode bool
 	for n := 0; n < nOps; n++ {
 		i := r.intn(len(w.peers))
 		vp := w.peers[i]
-		switch x := r.intn(100); {
+		x := r.intn(100)
+		if vp.deleted && x < 93 {
+			continue
+		}
+		switch {
 		case x < 8:
 			if vp.up {
 				w.sessionDown(vp, fsmReadFailed)
@@ -580,6 +622,67 @@ func c01Run(t *testing.T, o *vOut, r *vRand, nOps int, idx int, addPathMode bool
 				note("up %d", i)
 				o.stat("op_up", 1)
 			}
+		case x >= 96:
+			// locally injected route (API AddPath) or its removal (DeletePath)
+			if r.chance(65) {
+				sc.marker++
+				rt := &c01Route{pfx: r.intn(len(c01Prefixes)), marker: sc.marker, origin: uint8(r.pick(0, 2))}
+				if r.chance(30) {
+					v := uint32(r.pick(100, 200))
+					rt.lp = &v
+				}
+				if r.chance(30) {
+					v := uint32(r.pick(0, 10))
+					rt.med = &v
+				}
+				if r.chance(30) {
+					rt.segs = [][]uint32{{2, uint32(r.pick(65001, 65002, 300))}}
+				}
+				p := c01LocalPath(rt, false, w.now())
+				w.local(p)
+				sc.local[fmt.Sprintf("%d#0", rt.pfx)] = rt
+				note("ladd %s", rt.line())
+				o.stat("op_local_add", 1)
+			} else {
+				pfx := r.intn(len(c01Prefixes))
+				w.local(c01LocalPath(&c01Route{pfx: pfx}, true, w.now()))
+				delete(sc.local, fmt.Sprintf("%d#0", pfx))
+				note("ldel %d 0", pfx)
+				o.stat("op_local_del", 1)
+			}
+			if r.chance(35) {
+				check()
+			}
+			continue
+		case x >= 91 && x < 93:
+			// a peer is added to the configuration at run time (AddPeer); it usually comes up soon
+			if len(w.peers) >= 8 {
+				continue
+			}
+			k := len(w.peers)
+			note("%s", mkPeer(k))
+			o.stat("op_add_peer", 1)
+			if r.chance(70) {
+				w.sessionUp(w.peers[k], nil)
+				note("up %d", k)
+			}
+			if r.chance(35) {
+				check()
+			}
+			continue
+		case x >= 93:
+			// the peer is deleted from the configuration (DeletePeer)
+			if vp.deleted || len(w.peers) < 3 {
+				continue
+			}
+			w.delPeer(vp)
+			sc.latest[i] = map[string]*c01Route{}
+			note("del %d", i)
+			o.stat("op_del_peer", 1)
+			if r.chance(35) {
+				check()
+			}
+			continue
 		case x < 12:
 			// a session comes up while another peer's UPDATE is being processed: the UPDATE is
 			// handled after the initial table transfer of the new session and before the FSM
@@ -590,7 +693,7 @@ func c01Run(t *testing.T, o *vOut, r *vRand, nOps int, idx int, addPathMode bool
 			var src *vwPeer
 			si := 0
 			for k, q := range w.peers {
-				if q.up && q != vp {
+				if q.up && !q.deleted && q != vp {
 					src, si = q, k
 				}
 			}
@@ -755,6 +858,12 @@ func TestVerifC01Replay(t *testing.T) {
 			w.recv(w.peers[n(1)], c01ParseRoute(f[2:]).msg(w.peers[n(1)]))
 		case "wd":
 			w.recv(w.peers[n(1)], bgp.NewBGPUpdateMessage([]bgp.PathNLRI{{NLRI: c01Nlri(n(2)), ID: uint32(n(3))}}, nil, nil))
+		case "ladd":
+			w.local(c01LocalPath(c01ParseRoute(f[1:]), false, w.now()))
+		case "ldel":
+			w.local(c01LocalPath(&c01Route{pfx: n(1)}, true, w.now()))
+		case "del":
+			w.delPeer(w.peers[n(1)])
 		case "flush":
 		default:
 			continue
